@@ -33,7 +33,7 @@ The change must NOT be one that ordinary use would expose at once. It should nee
 
 Also write a DEMONSTRATION: a self-contained python script (or pytest file) {out}/demo.py that exercises the library (run as: PYTHONPATH=<tree>/src /venv/bin/python {out}/demo.py) and exits 0 / prints PASS on the unchanged tree but exits non-zero / prints FAIL with your change applied, showing that the property is really violated (not just an internal detail changed). The demo may use real sockets on 127.0.0.1, threads, monkeypatching of time etc., but must be deterministic enough to be trusted and finish within ~60 s. Use /venv/bin/python (3.12). No network access or package installation is available.
 
-Verify all of it yourself: run the test suite with your change; run demo.py with the change (must fail) and with the change reverted via `git stash` (must pass), then re-apply (`git stash pop`).
+Verify all of it yourself: run the test suite with your change; run demo.py with the change (must fail) and with the change reverted (must pass), then re-apply it. IMPORTANT: do NOT use `git stash` (the stash is shared between worktrees and other people use it concurrently); revert and re-apply with `git -C {wt} diff > {out}/patch.diff`, `git -C {wt} apply -R {out}/patch.diff` and `git -C {wt} apply {out}/patch.diff`.
 
 Deliverables, all in {out}/ :
   - patch.diff : output of `git -C {wt} diff` (the change to the library only; do not commit)
